@@ -285,6 +285,36 @@ def aberration(check, prog, canon):
                       'aberration result differs from MieLens' % missing)
 
 
+def lens_nodes(check, prog):
+    """The pupil integral runs over both angles, and the wrapped theory's matrix
+    depends on both for anything but a sphere: the positions it is asked at must
+    be built from the polar nodes *and* the azimuthal nodes (shared with C05:
+    rotating a non-spherical scatterer about the axis is a shift in azimuth)."""
+    q = LENS + '._calc_scattering_matrix'
+    fd = prog.func(q)
+    loc = prog.loc(q, fd)
+    it = Interp(prog, max_depth=1, inline_new=False)
+    it.analyze(q)
+    rs = [c for c in it.calls if c['name'].split('.')[-1] == 'raw_scat_matrs']
+    if len(rs) != 1 or len(rs[0]['args']) < 3:
+        check.bad('V3-matrix-at-every-node', 'Lens._calc_scattering_matrix',
+                  'no single call of the wrapped theory\'s raw_scat_matrs', loc)
+        return
+    # method call records carry the receiver first: (self.theory, scatterer, pos, ..)
+    pos = dict(rs[0]['kwargs']).get('pos', rs[0]['args'][2])
+    me = sym('self')
+    for nodes in ('_theta_pts', '_phi_pts'):
+        dep = any(x == ('attr', me, nodes) for x in subterms(pos))
+        check.require(dep, 'V3-matrix-at-every-node',
+                      'Lens._calc_scattering_matrix positions / %s' % nodes,
+                      'the positions handed to the wrapped theory are built from '
+                      'self.%s' % nodes, loc,
+                      fail_detail='positions are %s: the matrix is not evaluated at the '
+                      '%s nodes, so its dependence on that angle never enters the '
+                      'integral' % (show(pos)[:120],
+                                    'azimuthal' if 'phi' in nodes else 'polar'))
+
+
 def quadrature(check, prog, canon):
     q = MLF + 'MieLensCalculator.calculate_scattered_field'
     fd = prog.func(q)
@@ -343,6 +373,7 @@ def quadrature(check, prog, canon):
     q = LENS + '._calc_scattering_matrix'
     fd = prog.func(q)
     loc = prog.loc(q, fd)
+    lens_nodes(check, prog)
     it = Interp(prog, max_depth=1, inline_new=False)
     res = it.analyze(q)
     mg = [c for c in it.calls if c['name'] == 'numpy.meshgrid']
